@@ -251,7 +251,8 @@ LEG_NAMES = ["idx", "alpha", "beta", "gamma", "delta", "eps", "zeta", "eta", "th
 leg_el = {
     "int": st.integers(-10 ** 6, 10 ** 6),
     "float": st.one_of(st.sampled_from([0.5, 2.0, -3.25, 1e10, 1e-5, 123456.789, 0.0]), st.floats(-1e6, 1e6, allow_nan=False), weird_floats),
-    "str": st.text(alphabet="abcXYZ_-", min_size=1, max_size=6).filter(lambda s: s not in ("None",)),
+    "str": st.one_of(st.text(alphabet="abcXYZ_-", min_size=1, max_size=6).filter(lambda s: s not in ("None",)),
+                     st.sampled_from(["C:\\temp", "a\\b", "it's", 'say"hi"', "q'\"q", "back\\"])),
     "date": V.dates, "bool": st.booleans(),
 }
 
